@@ -8,6 +8,18 @@ TRUSTED_BASE = [
 ]
 
 PROPS = {
+    "C05": {
+        "verus": [("verify_base", ["verify_membership", "verify_nonmembership", "NodeLabel.value", "NodeLabel.root", "NodeLabel.new"])],
+        "verus_thorough": ["node_label"],
+        "search": True,
+        "always_search": True,
+        "scope": "verifier side: verify_membership accepts exactly when the bottom-up Merkle fold of the proof hashes to the root; verify_nonmembership "
+                 "accepts only proofs anchored at the deepest matching node (anchor is a prefix of the label, is the lcp of its two children, no child is a "
+                 "prefix of the label, children hash to the anchor, anchor is a member). Completeness of server-side generation is not decided.",
+        "trusted": ["T4 configuration hashes are deterministic functions of their byte inputs (uninterpreted); collision resistance only for the meaning of the predicates, not for the contracts",
+                    "NodeLabel::is_prefix_of / get_longest_common_prefix contracts are proved in unit node_label (C17)"],
+        "assumed": [],
+    },
     "C17": {
         "verus": ["node_label"],
         "kani": ["c17"],
